@@ -17,8 +17,8 @@ void __sanitizer_set_death_callback(void (*cb)(void));
 #define HAVE_SAN_CB 1
 #endif
 
-int h_input_modified = 0;
-double h_time_limit = 1.0e9;
+__thread int h_input_modified = 0;
+__thread double h_time_limit = 1.0e9;
 
 /* ---------- tokens ---------- */
 
@@ -221,18 +221,124 @@ static OPDEF* find_op(const char* name)
   return NULL;
 }
 
+static int cfg_fresh = 0;
+static long cfg_clock_at = 0;
+static unsigned cfg_op_timeout = 30;
+static int cfg_threads = 0;
+
+/* processes one input line (modified in place) with the thread's environment; the result line (without "#k ") goes to res */
+static int process_line(CMR** pcmr, char* line, OUT* res, OUT* o, char*** ptoks, int* ptokcap)
+{
+  CMR* cmr = *pcmr;
+  out_reset(res); out_str(res, "");
+  int n = 0;
+  char* p = line;
+  while (*p)
+  {
+    while (*p == ' ' || *p == '\n' || *p == '\r' || *p == '\t') ++p;
+    if (!*p) break;
+    if (n == *ptokcap) { *ptokcap = 2 * *ptokcap + 64; *ptoks = (char**) realloc(*ptoks, *ptokcap * sizeof(char*)); }
+    (*ptoks)[n++] = p;
+    while (*p && *p != ' ' && *p != '\n' && *p != '\r' && *p != '\t') ++p;
+    if (*p) *p++ = 0;
+  }
+  char** toks = *ptoks;
+  if (n == 0) { out_str(res, "skip"); return 0; }
+  TOKS t = { toks, n, 1, 0 };
+  long line_clock_at = cfg_clock_at;
+  int opi = 0;
+  while (opi < n && toks[opi][0] == '@')
+  {
+    if (!strncmp(toks[opi], "@clk=", 5)) line_clock_at = atol(toks[opi] + 5);
+    else if (!strncmp(toks[opi], "@fill=", 6)) hw_fill = atoi(toks[opi] + 6);
+    else if (!strcmp(toks[opi], "@fresh")) { CMRfreeEnvironment(&cmr); if (CMRcreateEnvironment(&cmr)) return 3; *pcmr = cmr; }
+    ++opi;
+  }
+  if (opi >= n) { out_str(res, "skip"); return 0; }
+  t.pos = opi + 1;
+  OPDEF* d = find_op(toks[opi]);
+  if (!d) { out_str(res, "bad-op unknown"); return 0; }
+  if (cfg_fresh)
+  {
+    CMRfreeEnvironment(&cmr);
+    if (CMRcreateEnvironment(&cmr)) return 3;
+    *pcmr = cmr;
+  }
+  out_reset(o);
+  out_str(o, "");
+  hw_trace_reset();
+  size_t usage0 = CMRgetStackUsage(cmr);
+  size_t depth0 = hw_depth;
+  long viol0 = hw_order_violations;
+  h_input_modified = 0;
+  hw_clock_reads = 0;
+  hw_clock_fired = 0;
+  hw_clock_inject_at = line_clock_at;
+  h_time_limit = line_clock_at > 0 ? 3600.0 : 1.0e9;
+  if (!cfg_threads) alarm(cfg_op_timeout);
+  CMR_ERROR e = d->fn(cmr, &t, o);
+  if (!cfg_threads) alarm(0);
+  hw_clock_inject_at = 0;
+  size_t usage1 = CMRgetStackUsage(cmr);
+  if (t.bad) { out_str(res, "bad-op malformed"); return 0; }
+  if (e) out_fmt(res, "err:%s", errname(e)); else out_str(res, "ok");
+  out_str(res, o->s ? o->s : "");
+  out_fmt(res, " ;; st=%zu,%zu,%ld,%ld in=%d", usage0, usage1, (long) hw_depth - (long) depth0, hw_order_violations - viol0,
+    h_input_modified);
+  out_fmt(res, " clk=%ld,%ld", hw_clock_reads, hw_clock_fired);
+  if (hw_trace) { out_str(res, " tr="); out_str(res, hw_tracebuf ? hw_tracebuf : ""); }
+  /* the property does not allow a failed call to leave the scratch stack unbalanced; nevertheless continue with a new
+     environment after an imbalance so that later ops are judged on their own */
+  if (usage1 != usage0 || hw_depth != depth0)
+  {
+    hw_depth = 0;
+    /* abandon the old environment (freeing an unbalanced one is not defined); keep it reachable so that it is not
+       reported as a leak of the library */
+    static CMR* abandoned[4096]; static size_t numAbandoned = 0;
+    size_t slot = __sync_fetch_and_add(&numAbandoned, 1);
+    if (slot < 4096) abandoned[slot] = cmr;
+    cmr = NULL;
+    if (CMRcreateEnvironment(&cmr)) return 3;
+    *pcmr = cmr;
+  }
+  if (CMRgetErrorMessage(cmr)) CMRclearErrorMessage(cmr);
+  return 0;
+}
+
+/* ---- concurrent mode (C19): every thread runs all lines on its own environment ---- */
+#include <pthread.h>
+typedef struct { char** lines; size_t n; char** results; int fill; size_t redzone; } WORK;
+
+static void* worker(void* arg)
+{
+  WORK* w = (WORK*) arg;
+  hw_fill = w->fill; hw_redzone = w->redzone;
+  CMR* cmr = NULL;
+  if (CMRcreateEnvironment(&cmr)) return NULL;
+  OUT res = { NULL, 0, 0 }, o = { NULL, 0, 0 };
+  char** toks = NULL; int tokcap = 0;
+  for (size_t i = 0; i < w->n; ++i)
+  {
+    char* copy = strdup(w->lines[i]);
+    process_line(&cmr, copy, &res, &o, &toks, &tokcap);
+    w->results[i] = strdup(res.s ? res.s : "");
+    free(copy);
+  }
+  CMRfreeEnvironment(&cmr);
+  free(toks); free(res.s); free(o.s);
+  return NULL;
+}
+
 int main(int argc, char** argv)
 {
-  int fresh = 0;
-  long clock_at = 0;
-  unsigned op_timeout = 30;
   for (int i = 1; i < argc; ++i)
   {
     if (!strcmp(argv[i], "--fill") && i + 1 < argc) hw_fill = atoi(argv[++i]);
     else if (!strcmp(argv[i], "--redzone") && i + 1 < argc) hw_redzone = (size_t) atol(argv[++i]);
-    else if (!strcmp(argv[i], "--clock-at") && i + 1 < argc) clock_at = atol(argv[++i]);
-    else if (!strcmp(argv[i], "--fresh")) fresh = 1;
-    else if (!strcmp(argv[i], "--op-timeout") && i + 1 < argc) op_timeout = (unsigned) atoi(argv[++i]);
+    else if (!strcmp(argv[i], "--clock-at") && i + 1 < argc) cfg_clock_at = atol(argv[++i]);
+    else if (!strcmp(argv[i], "--fresh")) cfg_fresh = 1;
+    else if (!strcmp(argv[i], "--op-timeout") && i + 1 < argc) cfg_op_timeout = (unsigned) atoi(argv[++i]);
+    else if (!strcmp(argv[i], "--threads") && i + 1 < argc) cfg_threads = atoi(argv[++i]);
     else if (!strcmp(argv[i], "--trace")) hw_trace = 1;
     else { fprintf(stderr, "cmrh: unknown option %s\n", argv[i]); return 2; }
   }
@@ -249,89 +355,55 @@ int main(int argc, char** argv)
   static char obuf[1 << 16];
   setvbuf(stdout, obuf, _IOLBF, sizeof(obuf)); /* line buffered: a crash must not lose earlier results */
 
-  CMR* cmr = NULL;
-  if (CMRcreateEnvironment(&cmr)) return 3;
-
   char* line = NULL;
   size_t cap = 0;
   ssize_t len;
-  OUT o = { NULL, 0, 0 };
+
+  if (cfg_threads > 0)
+  {
+    size_t n = 0, capl = 0; char** lines = NULL;
+    while ((len = getline(&line, &cap, stdin)) >= 0)
+    {
+      if (n == capl) { capl = 2 * capl + 64; lines = (char**) realloc(lines, capl * sizeof(char*)); }
+      lines[n++] = strdup(line);
+    }
+    int T = cfg_threads > 64 ? 64 : cfg_threads;
+    pthread_t th[64]; WORK w[64];
+    for (int k = 0; k < T; ++k)
+    {
+      w[k].lines = lines; w[k].n = n; w[k].results = (char**) calloc(n + 1, sizeof(char*)); w[k].fill = hw_fill; w[k].redzone = hw_redzone;
+      pthread_create(&th[k], NULL, worker, &w[k]);
+    }
+    for (int k = 0; k < T; ++k) pthread_join(th[k], NULL);
+    for (size_t i = 0; i < n; ++i)
+    {
+      int same = 1;
+      for (int k = 1; k < T; ++k)
+        if (!w[k].results[i] || !w[0].results[i] || strcmp(w[k].results[i], w[0].results[i])) same = 0;
+      if (same) printf("#%zu %s\n", i, w[0].results[i]);
+      else printf("#%zu crash:thread-results-differ\n", i);
+    }
+    for (int k = 0; k < T; ++k) { for (size_t i = 0; i < n; ++i) free(w[k].results[i]); free(w[k].results); }
+    for (size_t i = 0; i < n; ++i) free(lines[i]);
+    free(lines); free(line);
+    return 0;
+  }
+
+  CMR* cmr = NULL;
+  if (CMRcreateEnvironment(&cmr)) return 3;
+  OUT o = { NULL, 0, 0 }, res = { NULL, 0, 0 };
   char** toks = NULL;
   int tokcap = 0;
   long seq = -1;
   while ((len = getline(&line, &cap, stdin)) >= 0)
   {
     ++seq;
-    /* tokenize in place */
-    int n = 0;
-    char* p = line;
-    while (*p)
-    {
-      while (*p == ' ' || *p == '\n' || *p == '\r' || *p == '\t') ++p;
-      if (!*p) break;
-      if (n == tokcap) { tokcap = 2 * tokcap + 64; toks = (char**) realloc(toks, tokcap * sizeof(char*)); }
-      toks[n++] = p;
-      while (*p && *p != ' ' && *p != '\n' && *p != '\r' && *p != '\t') ++p;
-      if (*p) *p++ = 0;
-    }
-    if (n == 0) { printf("#%ld skip\n", seq); continue; }
-    TOKS t = { toks, n, 1, 0 };
-    /* per-line modifiers: "@clk=K" as first token(s) before the op name */
-    long line_clock_at = clock_at;
-    int opi = 0;
-    while (opi < n && toks[opi][0] == '@')
-    {
-      if (!strncmp(toks[opi], "@clk=", 5)) line_clock_at = atol(toks[opi] + 5);
-      else if (!strncmp(toks[opi], "@fill=", 6)) hw_fill = atoi(toks[opi] + 6);
-      else if (!strcmp(toks[opi], "@fresh")) { CMRfreeEnvironment(&cmr); if (CMRcreateEnvironment(&cmr)) return 3; }
-      ++opi;
-    }
-    if (opi >= n) { printf("#%ld skip\n", seq); continue; }
-    t.pos = opi + 1;
-    OPDEF* d = find_op(toks[opi]);
-    if (!d) { printf("#%ld bad-op unknown\n", seq); continue; }
-    if (fresh)
-    {
-      CMRfreeEnvironment(&cmr);
-      if (CMRcreateEnvironment(&cmr)) return 3;
-    }
-    out_reset(&o);
-    out_str(&o, "");
-    hw_trace_reset();
-    size_t usage0 = CMRgetStackUsage(cmr);
-    size_t depth0 = hw_depth;
-    long viol0 = hw_order_violations;
-    h_input_modified = 0;
-    hw_clock_reads = 0;
-    hw_clock_fired = 0;
-    hw_clock_inject_at = line_clock_at;
-    h_time_limit = line_clock_at > 0 ? 3600.0 : 1.0e9;
-    alarm(op_timeout);
-    CMR_ERROR e = d->fn(cmr, &t, &o);
-    alarm(0);
-    hw_clock_inject_at = 0;
-    size_t usage1 = CMRgetStackUsage(cmr);
-    if (t.bad) { printf("#%ld bad-op malformed\n", seq); continue; }
-    printf("#%ld ", seq);
-    if (e) printf("err:%s", errname(e)); else printf("ok");
-    printf("%s ;; st=%zu,%zu,%ld,%ld in=%d clk=%ld,%ld", o.s ? o.s : "", usage0, usage1, (long) hw_depth - (long) depth0,
-      hw_order_violations - viol0, h_input_modified, hw_clock_reads, hw_clock_fired);
-    if (hw_trace) printf(" tr=%s", hw_tracebuf ? hw_tracebuf : "");
-    printf("\n");
-    /* a failed call may legitimately leave the scratch stack unbalanced only if the property says so: it does not.
-       We nevertheless reset the environment after an imbalance so that later ops are judged on their own. */
-    if (usage1 != usage0 || hw_depth != depth0)
-    {
-      fflush(stdout);
-      hw_depth = 0;
-      /* leak the old environment on purpose: freeing an unbalanced one is not defined */
-      cmr = NULL;
-      if (CMRcreateEnvironment(&cmr)) return 3;
-    }
-    if (CMRgetErrorMessage(cmr)) CMRclearErrorMessage(cmr);
+    int rc = process_line(&cmr, line, &res, &o, &toks, &tokcap);
+    if (rc) return rc;
+    printf("#%ld %s\n", seq, res.s ? res.s : "");
   }
   fflush(stdout);
   CMRfreeEnvironment(&cmr);
-  free(line); free(toks); free(o.s);
+  free(line); free(toks); free(o.s); free(res.s);
   return 0;
 }
